@@ -301,8 +301,9 @@ PROPS = {
              "Non-trivial: at least one write fault was armed (a Write was split) or a parked writer overlapped other "
              "requests; distinct = distinct canonical action scripts (64-bit FNV-1a).",
         assumptions=ASSUME_SIM,
-        quick=dict(engines=[rapid('^TestC08', 1600, steps=40)]),
-        thorough=dict(engines=[rapid('^TestC08', 40000, shards=14, steps=60, timeout=1500), rapid('^TestC08', 2000, shards=8, steps=50, timeout=1500, race=True)]),
+        quick=dict(engines=[rapid('^TestC08WholePackets', 1600, steps=40), rapid('^TestC08Loopback', 160, shards=8, timeout=600)]),
+        thorough=dict(engines=[rapid('^TestC08WholePackets', 40000, shards=14, steps=60, timeout=1500), rapid('^TestC08WholePackets', 2000, shards=8, steps=50, timeout=1500, race=True),
+                               rapid('^TestC08Loopback', 4000, shards=14, timeout=1500), rapid('^TestC08Loopback', 800, shards=8, timeout=1500, race=True)]),
     ),
 }
 
@@ -395,7 +396,13 @@ RULE_ADDENDA = {
            "(adoption, continuation, resend order and DUP of the next process).",
     'C07': "Also: storeFault(S|L|D) on the inbound path.",
     'C08': "Also: resendFault (connection lost; a write fault 0-90 bytes into the retransmission on the next connection, of kind "
-           "timeout, timeout-with-progress or reset).",
+           "timeout, timeout-with-progress or reset). TestC08Loopback: a real client over TCP on 127.0.0.1 (net.Buffers through "
+           "writev, the kernel cuts the writes): 1-4 goroutines with 1-5 requests each of {pub0, pub1 with payloads of 0, 1, 100, "
+           "4000, 70000, 300000 bytes, sub, ping}, PauseTimeout 30 ms, a peer which sends CONNACK only and reads the first "
+           "connection after a schedule of 0-6 steps (so many bytes, then a pause of 0-80 ms), 4 KiB socket buffers in half of "
+           "the cases; oracle over the bytes each connection received (strict reference decoder, payload equality, success only "
+           "when complete; time budgets are inconclusive, never violations). Non-trivial there: a reconnect, a connection which "
+           "ended inside a packet, or a request which failed.",
     'C09': "Also: the over-the-limit payload class is drawn in 1 of 8 quick-tier cases.",
     'C10': "Also: reader states skipping-dup-big (discarding the payload of a retransmitted exactly-once message larger than the "
            "read buffer, tail outstanding) and holding-big-tail-outstanding; failure 'silence' (nothing but PauseTimeout); in state handshake the broker may stay silent for good. Extra "
